@@ -660,7 +660,10 @@ where
                                 msg.index, prev_lc, lc2
                             );*/
                             // we merge into the prev. one (so use the prev.one only)
-                            let is_buffered = buffered_lcs.contains(&prev_lc.id);
+                            // the newer lc2 can have been confirmed already (e.g. as its timestamps span more than the max buffering delay)
+                            // while the prev. one is still buffered. Then we handle it like the case of an unbuffered prev. lc.
+                            let is_buffered = buffered_lcs.contains(&prev_lc.id)
+                                && buffered_lcs.contains(&lc2.id);
                             if is_buffered {
                                 // the buffered lcs shall be merged again (so lc2 is invalid afterwards)
                                 // todo this is cpu intensive/expensive. try to reduce the likelyhood.
